@@ -146,7 +146,7 @@ CHECKS = {
     'C20': dict(
         technique='executed freestanding closure link, strace bracket, writable-symbol snapshot, const-input snapshot and read-only (mprotect) shared inputs, ThreadSanitizer and valgrind helgrind runs with result comparison against sequential replay and an observed-overlap matrix',
         text='(1) undefined-symbol table of every object vs the allowed set and a -nostdlib -static link with a runtime offering only mem* + libgcc that runs initialisers and a '
-             'pairing/WKD-IBE/LQ-IBE workload (prod, portable-64, portable-32); (2) no system call between markers bracketing all 14 API families; (3) all writable library symbols '
+             'pairing/WKD-IBE/LQ-IBE workload (prod, portable-64, portable-32); (2) no system call between markers bracketing all 15 API families (one of them works on parameters, keys and master keys of two hierarchies that reached the shared area only through marshal + unmarshal, alternating between them); (3) all writable library symbols '
              'unchanged by the workload; (4) TSan builds, 4/8/16 threads from a barrier, seeded mixes on private outputs sharing const inputs, frequently the same operation at once: no '
              'report, results identical to sequential replay; evidence lists the operation-family pairs actually seen overlapping; (5) the shared const inputs (incl. attribute lists with '
              'identities >= r, hidden entries, scalars >= r) are byte-identical to their snapshot after every workload, and production builds run all families with those inputs in read-only '
@@ -174,17 +174,17 @@ EXTRA = {
     'C03': ' Reduction inputs and products with exact carry coincidences (lib/redcsolve.py) and special-word operands run on every back end; the tower, group-law, scalar-multiplication, pairing, GT, encoding, hashing, WKD-IBE and LQ-IBE workloads are diffed across prod / baseline x86 / portable-64 / portable-32 in the quick tier; the AArch64 and Thumb-1 interpreters cover the integer subset a rewrite plausibly uses (csel family, branches, shifts), so a rewritten routine is judged rather than declared uncovered.',
     'C05': ' Representatives include structured z values (-1, 2, 1/2, R, 2^64, 1+tu, 1+-u, u, tu, t, t+u, the value whose limbs read 1) through every operation and relation; output objects start as junk / a normalised point / the identity / another z by turns.',
     'C07': ' Directed digit vectors (all zero, single digit) and sampler streams whose accepted draw is y = 0 or whose first draw per digit is exactly |x|, |x|-1, |x|+1, 2^64-1 or whose candidate is exactly r-1, r, r+1.',
-    'C08': ' Lists of 31..65 and 255..257 (thorough ..300) affine pairs, prepared pairs and both; one prepared object prepared from a related point (same, negated, endomorphism images, identity) and then from Q must equal a fresh one.',
-    'C09': ' Destinations start dirty but valid (zero / identity flag with arbitrary coordinates / another point); twist points whose y has a zero component exercise the second arm of the sort rule; points of isomorphic curves exercise the curve test separately from the subgroup test.',
-    'C10': ' Draws exactly equal to the modulus and its neighbours for every sampler; cofactor-torsion abscissas; consecutive identity derivations from related hashes (shared prefixes / suffixes).',
-    'C11': ' Slot counts 33, 65, 257 (thorough also 130); hidden entries carry hostile id bits; fresh output keys start dirty (foreign valid points, wrong slot count, opposite signature flag, or 0xA5); directed adjustments that only toggle the omit-from-keys flag.',
-    'C12': ' Ciphertext lists carry the omit-from-keys flag on value entries (it has no meaning there); documented adjustments that hide a fixed slot must stop the key from opening ciphertexts with that slot set.',
-    'C13': ' Hierarchies with and without signature support; verify lists with flagged value entries; every precomputed input arrives by one of three routes (direct / adjusted from another list / adjusted away and back).',
-    'C14': ' Value changes whose difference is 2^k + small for every k; consumers of precomputed values (encrypt_precomputed, sign_precomputed, verify_precomputed, resamplekey) receive them through adjust chains.',
-    'C15': ' Destinations are dirty and reused (A, B with one invalid element at each position, intact B); equality covers hsig/bsig of signature-less objects (genuine defect fixed in /repo 5e1b5e0); identity-slot corruptions (sort bit, payload bit, other form).',
-    'C16': ' Degenerate masters (0, r, 2r, 2^256-1), all-zero encryption randomness and torsion-point identity hashes are directed cases; the hash callback may re-enter the library.',
+    'C08': ' Lists of 31..65 and 255..257 (thorough ..300) affine pairs, prepared pairs and both; one prepared object prepared from a related point (same, negated, endomorphism images, identity) and then from Q must equal a fresh one. Pairs may point at their predecessor\'s G2 object (every sharing pattern over short lists with identity members).',
+    'C09': ' Destinations start dirty but valid (zero / identity flag with arbitrary coordinates / another point); twist points whose y has a zero component exercise the second arm of the sort rule; points of isomorphic curves exercise the curve test separately from the subgroup test. Identity encodings with padding that is neutral for a word-wise accumulator (lanes cancelling under + or xor).',
+    'C10': ' Draws exactly equal to the modulus and its neighbours for every sampler; cofactor-torsion abscissas; consecutive identity derivations from related hashes (shared prefixes / suffixes). Exact small-order (13, 23, ...) torsion points of the twist and the curve as sampler candidates.',
+    'C11': ' Slot counts 33, 65, 257 (thorough also 130); hidden entries carry hostile id bits; fresh output keys start dirty (foreign valid points, wrong slot count, opposite signature flag, or 0xA5); directed adjustments that only toggle the omit-from-keys flag. Adjustments between same-layout lists, with omit-all toggles, ids that are near misses of each other (wkd.near: one bit / one word / equal low or high halves), list arguments that are views of one array; 15% of the random-consuming operations start from rejection-forcing byte streams.',
+    'C12': ' Ciphertext lists carry the omit-from-keys flag on value entries (it has no meaning there); documented adjustments that hide a fixed slot must stop the key from opening ciphertexts with that slot set. Negatives also use near-miss ids; adjustments that hide all remaining slots through the list-level flag precede the filling attempts; crafted random streams as in C11.',
+    'C13': ' Hierarchies with and without signature support; verify lists with flagged value entries; every precomputed input arrives by one of three routes (direct / adjusted from another list / adjusted away and back). Perturbed messages and ids include near misses (partial-word equality); crafted random streams as in C11.',
+    'C14': ' Value changes whose difference is 2^k + small for every k; consumers of precomputed values (encrypt_precomputed, sign_precomputed, verify_precomputed, resamplekey) receive them through adjust chains. adjust_precomputed chains and adjust_nondelegable pairs whose two lists are views (prefix / suffix / all) of one array; omit-all toggles on both lists; near-miss id changes.',
+    'C15': ' Destinations are dirty and reused (A, B with one invalid element at each position, intact B); equality covers hsig/bsig of signature-less objects (genuine defect fixed in /repo 5e1b5e0); identity-slot corruptions (sort bit, payload bit, other form). Objects with identity elements (constant, P+(-P), z=0 with arbitrary x,y) substituted at every element position round-trip, and accepted identity-element buffers must marshal back byte-identically.',
+    'C16': ' Degenerate masters (0, r, 2r, 2^256-1), all-zero encryption randomness and torsion-point identity hashes are directed cases; the hash callback may re-enter the library. Encrypt and setup also run from rejection-forcing random streams (digit and candidate rejections, boundary candidates).',
     'C18': ' Second-operand special values are paired with first-operand special values through an index coprime to every period; exponents 0, 1, 5, |x|-1, 2^64; the 32-bit-word build runs in the quick tier.',
-    'C19': ' Sign / verify / encrypt rows use trial-dependent key patterns (fixed / free / hidden per slot) and extension lists; the pairing_sum row varies (affine, prepared) counts over {0,1,2}^2 incl. the empty list with NULL arrays.',
+    'C19': ' Sign / verify / encrypt rows use trial-dependent key patterns (fixed / free / hidden per slot) and extension lists; the pairing_sum row varies (affine, prepared) counts over {0,1,2}^2 incl. the empty list with NULL arrays. Binary wrappers run with out=a, a=b (same object) and out=a=b, unary ones in place on odd trials; GT-typed arguments include arbitrary Fq12 values.',
 }
 
 
